@@ -109,7 +109,7 @@ def build_qm(desc, dtype='float64'):
     return gen.build_qm(desc, dtype=DTYPES[dtype])
 
 
-def rand_cqm_desc(rng, nmax=4, cmax=3, wild_p=0.3):
+def rand_cqm_desc(rng, nmax=4, cmax=3, wild_p=0.3, shaped_p=0.0):
     n = rng.randint(0, nmax)
     labels = pick_labels(rng, n, wild_p=wild_p)
     base = rand_desc(rng, labels, kinds=('BINARY', 'SPIN', 'INTEGER', 'INTEGER', 'REAL'))
@@ -151,7 +151,98 @@ def rand_cqm_desc(rng, nmax=4, cmax=3, wild_p=0.3):
     bins = [v for v in allvars if v[1] == 'BINARY']
     if len(bins) >= 2 and rng.random() < 0.4:
         disc.append({"label": enc_label(pool[cmax + 1]), "vars": [v[0] for v in bins[:rng.randint(2, len(bins))]]})
-    return {"allvars": allvars, "objective": obj, "constraints": cons, "discrete": disc}
+    d = {"allvars": allvars, "objective": obj, "constraints": cons, "discrete": disc}
+    if shaped_p and rng.random() < shaped_p:
+        add_shaped(rng, d, pool[cmax + 2:])
+    return d
+
+
+SHAPED_ROUTES = ['iterable', 'model', 'comparison', 'iterable_offset',      # one-hot shaped, never marked
+                 'discrete_unmarked',                                       # add_discrete, then mark_discrete(False)
+                 'marked_later',                                            # plain, then lhs.mark_discrete()
+                 'discrete',                                                # add_discrete
+                 'discrete_edited',                                         # add_discrete, then an edit of the lhs
+                 'near_sum2', 'near_le', 'near_coeff', 'near_extra']        # almost one-hot
+
+
+def add_shaped(rng, d, label_pool):
+    """Constraints exercising the difference between the SHAPE of a constraint (sum of binaries == 1) and its
+    discrete MARK: every combination the API can produce, over dedicated and shared binary variables."""
+    allvars = d["allvars"]
+    used = {json.dumps(v[0], sort_keys=True) for v in allvars}
+    ints = all(type(v[0]) is int for v in allvars) and [v[0] for v in allvars] == list(range(len(allvars)))
+    k = rng.randint(2, 6)
+    fresh = []
+    for i in range(k):
+        lab = (len(allvars) if ints else ('oh', i))
+        if json.dumps(enc_label(lab), sort_keys=True) in used:
+            lab = ('oh', 'x', i)
+        allvars.append([enc_label(lab), 'BINARY', 0, 1])
+        fresh.append(enc_label(lab))
+    marked_used = {json.dumps(v, sort_keys=True) for dd in d["discrete"] for v in dd["vars"]}
+    bins = [v[0] for v in allvars if v[1] == 'BINARY']
+    items = []
+    taken = {json.dumps(e["label"], sort_keys=True) for e in d["constraints"]} | \
+            {json.dumps(dd["label"], sort_keys=True) for dd in d["discrete"]}
+    labels = [l for l in label_pool if json.dumps(enc_label(l), sort_keys=True) not in taken]
+    for j in range(rng.randint(1, 4)):
+        if j >= len(labels):
+            break
+        route = rng.choice(SHAPED_ROUTES)
+        will_mark = route in ('marked_later', 'discrete', 'discrete_unmarked', 'discrete_edited')
+        cand = [v for v in bins if not (will_mark and json.dumps(v, sort_keys=True) in marked_used)]
+        if len(cand) < 2:
+            continue
+        vs = rng.sample(cand, rng.randint(2, min(4, len(cand))))
+        if will_mark:
+            marked_used |= {json.dumps(v, sort_keys=True) for v in vs}
+        it = {"label": enc_label(labels[j]), "vars": vs, "route": route}
+        if route == 'near_extra':
+            others = [v[0] for v in allvars if v[1] != 'BINARY']
+            if not others:
+                it["route"] = 'near_coeff'
+            else:
+                it["extra"] = rng.choice(others)
+        items.append(it)
+    d["shaped"] = items
+
+
+def apply_shaped(cqm, items):
+    for it in items:
+        lab = dec_label(it["label"])
+        vs = [dec_label(v) for v in it["vars"]]
+        r = it["route"]
+        if r == 'iterable':
+            cqm.add_constraint_from_iterable([(v, 1) for v in vs], '==', 1, label=lab)
+        elif r == 'iterable_offset':
+            cqm.add_constraint_from_iterable([(v, 1) for v in vs] + [(-1,)], '==', 0, label=lab)
+        elif r == 'model':
+            qm = dimod.QuadraticModel()
+            for v in vs:
+                qm.add_variable('BINARY', v)
+                qm.set_linear(v, 1)
+            cqm.add_constraint_from_model(qm, '==', 1, label=lab)
+        elif r == 'comparison':
+            cqm.add_constraint(sum(dimod.Binary(v) for v in vs) == 1, label=lab)
+        elif r in ('discrete', 'discrete_unmarked', 'discrete_edited'):
+            cqm.add_discrete(vs, label=lab)
+            if r == 'discrete_unmarked':
+                cqm.constraints[lab].lhs.mark_discrete(False)
+            elif r == 'discrete_edited':
+                cqm.constraints[lab].lhs.set_linear(vs[0], 2.0)
+        elif r == 'marked_later':
+            cqm.add_constraint_from_iterable([(v, 1) for v in vs], '==', 1, label=lab)
+            cqm.constraints[lab].lhs.mark_discrete()
+        elif r == 'near_sum2':
+            cqm.add_constraint_from_iterable([(v, 1) for v in vs], '==', 2, label=lab)
+        elif r == 'near_le':
+            cqm.add_constraint_from_iterable([(v, 1) for v in vs], '<=', 1, label=lab)
+        elif r == 'near_coeff':
+            cqm.add_constraint_from_iterable([(v, 2 if i == 0 else 1) for i, v in enumerate(vs)], '==', 1, label=lab)
+        elif r == 'near_extra':
+            cqm.add_constraint_from_iterable([(v, 1) for v in vs] + [(dec_label(it["extra"]), 1)], '==', 1, label=lab)
+        else:
+            raise ValueError(r)
 
 
 def build_cqm(c):
@@ -170,6 +261,7 @@ def build_cqm(c):
         cqm.add_constraint_from_model(gen.build_qm(e), e["sense"], rhs=float(F(e["rhs"])), label=dec_label(e["label"]), **kw)
     for d in c["discrete"]:
         cqm.add_discrete([dec_label(v) for v in d["vars"]], label=dec_label(d["label"]))
+    apply_shaped(cqm, c.get("shaped", []))
     return cqm
 
 
@@ -265,7 +357,8 @@ def state_of(m):
             e.update(sense=c.sense.value, rhs=fx(c.rhs), soft=bool(c.lhs.is_soft()),
                      weight=None if w == float('inf') else fx(w),
                      penalty=c.lhs.penalty() if c.lhs.is_soft() else None,
-                     discrete=bool(c.lhs.is_discrete()), in_discrete=lab in m.discrete)
+                     discrete=bool(c.lhs.is_discrete()), in_discrete=lab in m.discrete,
+                     onehot=bool(c.lhs.is_onehot()))
             s["constraints"][key(lab)] = e
         s["n_constraints"] = len(m.constraints)
         return s
